@@ -1331,6 +1331,12 @@ async def avctp_chan_case(case, r: R):
               f'{None if w_ is None else (w_[0], w_[1], len(w_[2]))} got '
               f'{None if k >= len(got) else (got[k][0], got[k][1], len(got[k][2]))} (receiver MTU {mtu_b})')
     for where, e in rg.exceptions:
+        if any(nfr > 1 for _n, nfr, _b in sizes) and 'unpack_from requires a buffer' in str(e):
+            # the one known mechanism (known_findings: CONTINUE/END packets are parsed as if they carried a PID):
+            # a last fragment with fewer than two payload bytes makes that read fail outright
+            r.bad('avctp/channel/fragmented-message-not-delivered',
+                  f'{where}: {e} (a CONTINUE/END packet shorter than header + PID; receiver MTU {mtu_b}, trains {sizes})')
+            continue
         r.bad('avctp/channel/exception-in-stack', f'{where}: {e}')
     r.sig('avctp-chan', mtu_b, tuple(sizes))
     r.sched.add(rg.schedule_signature)
